@@ -69,7 +69,35 @@ def check_C13(chk, tier, seed):
         for verify in (0, 1):
             cases.append(f"TLS {tls} {verify} tls weak host MARKW{tls}{verify}q{seed % 1000}")
             meta.append((tls, verify, "tls", "weak", "host"))
-    impl = core.run_sharded([eng.harness, "codec"], eng.prelude, cases, shards=16, timeout=600, env=NET_ENV)
+    # the first octets of what the client sends arrive at the server one per TCP segment (a relay, a slow path, Nagle off): TLS
+    # is negotiated over a byte stream, how it is cut into segments changes nothing
+    for i, (tls, verify, srv, cert, addr) in enumerate(cells):
+        if tls == 1 and srv == "tls" and addr == "host":
+            cases.append(f"TLS {tls} {verify} {srv} {cert} {addr} MARKD{i:04d}q{seed % 1000} dribble")
+            meta.append((tls, verify, srv, cert, addr))
+    # the ports IANA lists for Diameter (3868) and Diameter over TLS (5658): the configuration decides, not the port
+    for port in (3868, 5658):
+        for (tls, verify, srv, cert) in ((0, 0, "plain", "match"), (0, 1, "tls", "match"), (1, 1, "tls", "match"), (1, 0, "plain", "match")):
+            cases.append(f"TLS {tls} {verify} {srv} {cert} host MARKP{port}{tls}{verify}q{seed % 1000} port={port}")
+            meta.append((tls, verify, srv, cert, "host"))
+    n_main = len(cases)
+    # verification switched off means off: a trust file that is missing or is not a certificate file at all must not matter
+    for bad_trust in ("/nonexistent/dir/ca.pem", os.path.join(core.ROOT, "tls", "gen.sh")):
+        for srv in ("plain", "tls"):
+            for cert in ("match", "wrongname", "untrusted"):
+                cases.append(f"TLS 1 0 {srv} {cert} host MARKT{len(cases):04d}q{seed % 1000}")
+                meta.append((1, 0, srv, cert, "host"))
+    impl = []
+    # (port cells bind fixed ports: one worker runs them all, one after the other)
+    port_idx = [i for i, c in enumerate(cases) if " port=" in c]
+    rest_idx = [i for i in range(n_main) if i not in port_idx]
+    out_rest = core.run_sharded([eng.harness, "codec"], eng.prelude, [cases[i] for i in rest_idx], shards=16, timeout=600, env=NET_ENV)
+    out_port = core.run_sharded([eng.harness, "codec"], eng.prelude, [cases[i] for i in port_idx], shards=1, timeout=600, env=NET_ENV)
+    merged = dict(zip(rest_idx, out_rest))
+    merged.update(zip(port_idx, out_port))
+    impl = [merged[i] for i in range(n_main)]
+    for j, bad_trust in enumerate(("/nonexistent/dir/ca.pem", os.path.join(core.ROOT, "tls", "gen.sh"))):
+        impl += core.run_sharded([eng.harness, "codec"], eng.prelude, cases[n_main + 6 * j: n_main + 6 * (j + 1)], shards=3, timeout=600, env=dict(NET_ENV, SSL_CERT_FILE=bad_trust))
     mcases = [f"TLSCELL {t} {v} {s} {'untrusted' if c == 'weak' else c} {a} x33383638" for (t, v, s, c, a) in meta]
     model = eng.ask_model(mcases)
     if tier == "thorough":
@@ -88,6 +116,9 @@ def check_C13(chk, tier, seed):
         chk.case(c, True)
         chk.validated += 1
         want = spec_cell(tls, verify, srv, cert) if cert != "weak" else ("refused" if tls else "noservice")
+        if im.startswith("TLS skipped"):
+            chk.count("skipped:fixed-port-in-use")
+            continue
         got = classify(im) if im.startswith("TLS") else "other"
         chk.count("expected:" + want)
         ok = got == want
